@@ -694,6 +694,22 @@ TFI_UNITS = [
                 ]),
 ]
 
+# retain / retain_mut: purl functions whose body is ONE dependency call (Vec::retain / Vec::retain_mut with a forwarding closure);
+# FnMut closures are outside Verus, so the contract is ASSUMED (std: "removes exactly the elements the predicate rejects, keeps the
+# order of the others") and exercised by the qualmap suite
+RETAIN_UNITS = [
+    dict(id='U-qmap.retain', file=F, fn='retain', ctx=_Q, wrap='impl Qualifiers', mode='assumed', properties=['C11', 'C04', 'C03'],
+         ret=None,
+         contract="""        requires old(self).wf()
+        ensures final(self).wf(), final(self).qualifiers@.len() <= old(self).qualifiers@.len(),
+            forall|i: int| 0 <= i < final(self).qualifiers@.len() ==> exists|j: int| 0 <= j < old(self).qualifiers@.len() && old(self).qualifiers@[j] == #[trigger] final(self).qualifiers@[i]"""),
+    dict(id='U-qmap.retain_mut', file=F, fn='retain_mut', ctx=_Q, wrap='impl Qualifiers', mode='assumed', properties=['C11', 'C04', 'C03'],
+         ret=None,
+         contract="""        requires old(self).wf()
+        ensures final(self).wf(), final(self).qualifiers@.len() <= old(self).qualifiers@.len(),
+            forall|i: int| 0 <= i < final(self).qualifiers@.len() ==> exists|j: int| 0 <= j < old(self).qualifiers@.len() && old(self).qualifiers@[j].0 == #[trigger] final(self).qualifiers@[i].0"""),
+]
+
 # every unit of the collection carries the representation invariant (lower-case keys, strictly ascending) that C03 (ascending keys in
 # the string), C04 (every PURL handed out is normalised -- whatever mutators ran on the builder's public `parts` before build())
 # and C19 (derived equality / order on the stored sequence) rest on
@@ -708,5 +724,5 @@ GROUP = dict(
     theory=['base.rs'],
     uses='use core::cmp::Ordering;\nuse core::marker::PhantomData;\nuse core::mem;\nuse core::slice;',
     canary='    axiom_string_from(); broadcast use axiom_ascii_to_lower; broadcast use axiom_view_of_str; axiom_from_keeps_text::<&str>();',
-    units=[_c.PURL_FIELD, _c.PARSE_ERROR, _c.QUALIFIER_KEY, _c.QUALIFIERS] + KEY_UNITS + CMP_UNITS + MAP_UNITS + MAP_UNITS2 + MAP_UNITS3 + MAP_UNITS4 + TYPED_UNITS + ITER_UNITS + MORE_UNITS + CAP_UNITS + TFI_UNITS,
+    units=[_c.PURL_FIELD, _c.PARSE_ERROR, _c.QUALIFIER_KEY, _c.QUALIFIERS] + KEY_UNITS + CMP_UNITS + MAP_UNITS + MAP_UNITS2 + MAP_UNITS3 + MAP_UNITS4 + TYPED_UNITS + ITER_UNITS + MORE_UNITS + CAP_UNITS + TFI_UNITS + RETAIN_UNITS + [dict(id='theory.qualuniq', kind='raw', text=_c.theory_text('qualuniq.rs'))],
 )
